@@ -218,7 +218,7 @@ class LifeRun:
     def go(self) -> list[dict]:
         if self.mode == "virtual":
             self.net = vnet.VNet()
-            loop = vnet.VLoop(self.net)
+            loop = vnet.VLoop(self.net, vtime=True)       # virtual clock: retries, pauses and timeouts inside the library cost no real time
         else:
             loop = asyncio.new_event_loop()
         try:
